@@ -10,15 +10,24 @@ from harness import cellmon, core
 META = {
     "id": "C14",
     "level": "proof",
-    "technique": "Coq proof (integer-division kernel lemmas + invariant induction over operation histories) of a hand-written model of cells.py; correspondence on random op sequences and on replayed real traces; brute-force monitor for the discipline of real histories",
+    "technique": "Coq proof (integer-division kernel lemmas + invariant induction over operation histories) of a hand-written model of cells.py, and of a model of every call-site protocol of pdb2pqr that touches the cell list, coordinates or atom membership while a Cells object is live (Model/CellsUse.v; tied to the source by an ast-extracted call-site table that is a proof obligation); correspondence on random op sequences, on replayed real traces and by checking that every observed per-call-site op trace is an instance of its modelled protocol; brute-force monitor of real histories",
     "level_text": (
         "Proved for ALL coordinates (exact rationals m/D: negative, zero, cell boundaries, huge), all cell sizes > 0 and ALL "
         "histories of add/remove/move that keep the discipline (moves and re-adds only on unregistered atoms): query + distance "
         "filter = brute force, no duplicates. The model is the code's int()-then-// bucket and 27-cell scan, tied to cells.py by "
-        "exact comparison of ordered query results on random (also undisciplined) op sequences. That pdb2pqr's own histories keep "
-        "the discipline is not a theorem: it is checked by monitoring every neighbour query of real runs against brute force, by an "
-        "invariant sweep at every query (an atom removed from its residue or moved while still registered is reported as a latent breach "
-        "as soon as the same cell map is queried again, whether or not a query near it is issued) and by replaying real traces in the model."
+        "exact comparison of ordered query results on random (also undisciplined) op sequences. pdb2pqr's own use of the cell list is "
+        "modelled call site by call site (set_dihedral_angle, the debump loop, Flip/Alcoholic/Water/Carboxylic __init__, try_donor, "
+        "try_acceptor, try_both, finalize, complete, fix, rename, and everything they call in optimize.py) with all geometry and decisions as "
+        "oracles; PROVED for all oracle values and all bond lists: every protocol maps a truthful cell list (Inv, registered <-> in the "
+        "structure) to a truthful one, every get_near_cells call inside a protocol is issued in a truthful state, and ANY sequence of "
+        "protocols after assign_cells answers every query like brute force (C14_histories_of_protocols, no side condition). "
+        "get_positions_with_two_bonds / get_position_with_three_bonds rotate REGISTERED atoms without telling the cell list; since "
+        "e1a3cf3 (finding C14-F6) they write the saved coordinates back, which is what the model has and why they are disciplined for all "
+        "rotation results. The model-to-source tie is (i) the ast-extracted table of call-site skeletons "
+        "(obligation C14_sites_table_matches_model breaks when any function gains, loses or reorders a cell op, coordinate write, atom "
+        "creation/removal or rotation), (ii) a shape check of every observed per-call-site op trace of the monitored runs against the "
+        "modelled protocol, and (iii) the brute-force monitor + invariant sweep on every query of real runs. Bond-list bookkeeping of "
+        "create_atom (which atoms a new atom is bonded to) and which run-time branch is taken are oracles, explored not proved."
     ),
     "level_note": (
         "Trusted: Coq kernel+vm_compute; the hand model Model/Cells.v (tied by differential execution); exact float->rational "
@@ -37,7 +46,154 @@ THEOREMS = [
     "C14_reachable_query_exact",
     "C14_undisciplined_miss",
     "C14_nonvacuous",
+    "C14_sites_table_matches_model",
+    "C14_protocol_assign_cells_disciplined",
+    "C14_protocol_set_dihedral_angle_disciplined",
+    "C14_protocol_debump_window_disciplined",
+    "C14_protocol_remove_delete_disciplined",
+    "C14_protocol_flip_init_disciplined",
+    "C14_protocol_carboxylic_disciplined",
+    "C14_protocol_try_donor_acceptor_disciplined",
+    "C14_protocol_try_both_disciplined",
+    "C14_protocol_finalize_disciplined",
+    "C14_protocol_get_positions_disciplined",
+    "C14_get_positions_regression",
+    "C14_histories_of_protocols",
+    "C14_history_nonvacuous",
 ]
+
+# ---- call-site protocols: observed op letters per call site must match ----------
+# letters (harness/cellmon.py): A add, B add of a registered atom, R remove, W write on an
+# unregistered atom, X write on a REGISTERED atom, Q query, N new Atom object, D remove_atom of an
+# unregistered atom, G remove_atom of a REGISTERED atom.  One regex per modelled call site = the
+# language of its protocol in Model/CellsUse.v, starred because consecutive calls of the same
+# function merge into one segment.
+_RD = r"(?:RD)*"
+SHAPES = {
+    # assign_cells: one add per atom of the structure
+    "debump.Debump.debump_biomolecule": r"A*",
+    "debump.Debump.get_bump_score": r"A*",
+    "hydrogens.HydrogenRoutines.initialize_full_optimization": r"A*",
+    "hydrogens.HydrogenRoutines.initialize_wat_optimization": r"A*",
+    "debump.Debump.debump_residue": r"(?:RW*A)*",  # set_dihedral_angle
+    "debump.Debump.find_nearby_atoms": r"Q*",
+    "debump.Debump.get_closest_atom": r"Q*",
+    "debump.Debump.get_bump_score_atom": r"Q*",
+    "hydrogens.HydrogenRoutines.optimize_hydrogens": r"Q*",
+    "hydrogens.structures.Flip.__init__": r"(?:RW*A|NW*A)*",
+    "hydrogens.structures.Carboxylic.__init__": r"(?:RW*A|NW*A)*",
+    "hydrogens.structures.Flip.fix_flip": _RD,
+    "hydrogens.structures.Flip.finalize": _RD,
+    "hydrogens.structures.Alcoholic.__init__": _RD,
+    "hydrogens.structures.Alcoholic.complete": _RD,
+    "hydrogens.structures.Water.complete": _RD,
+    "hydrogens.structures.Carboxylic.fix": _RD,
+    "hydrogens.structures.Carboxylic.rename": _RD,
+    "hydrogens.structures.Carboxylic.try_acceptor": _RD,
+    "hydrogens.structures.Alcoholic.try_both": _RD,
+    "hydrogens.structures.Water.try_both": _RD,
+    "hydrogens.structures.Water.try_donor": _RD,
+    "hydrogens.structures.Carboxylic.finalize": r"(?:Q|RD)*",
+    "hydrogens.optimize.Optimize.make_atom_with_no_bonds": r"(?:NW*A)*",
+    "hydrogens.optimize.Optimize.make_atom_with_one_bond_h": r"(?:NW*)*",
+    "hydrogens.optimize.Optimize.make_atom_with_one_bond_lp": r"(?:NW*)*",
+    "hydrogens.optimize.Optimize.make_water_with_one_bond": r"(?:NW*)*",
+    "hydrogens.optimize.Optimize.try_single_alcoholic_h": r"(?:W*[AD])*",
+    "hydrogens.optimize.Optimize.try_single_alcoholic_lp": r"(?:W*[AD])*",
+    "hydrogens.optimize.Optimize.try_positions_with_two_bonds_h": r"(?:NW*[AD])*",
+    "hydrogens.optimize.Optimize.try_positions_with_two_bonds_lp": r"(?:NW*[AD])*",
+    "hydrogens.optimize.Optimize.try_positions_three_bonds_h": r"(?:NW*[AD])*",
+    "hydrogens.optimize.Optimize.try_positions_three_bonds_lp": r"(?:NW*[AD])*",
+    # registered atoms are written here (X) and restored exactly (C14-F6, fixed by e1a3cf3); the monitor's sweep checks they are back in their cell
+    "hydrogens.optimize.Optimize.get_positions_with_two_bonds": r"[XW]*",
+    "hydrogens.optimize.Optimize.get_position_with_three_bonds": r"[XW]*",
+    "hydrogens.structures.Alcoholic.finalize": r"(?:A|RW*A|NW*A|Q)*",
+    "hydrogens.structures.Water.finalize": r"(?:A|RW*A|NW*A)*",
+}
+# rows of the table that are primitives of the model or window set-up (no protocol of their own)
+TABLE_PRIMS = {
+    "aa.Amino.create_atom", "aa.LIG.create_atom", "aa.WAT.create_atom", "na.Nucleic.create_atom", "cells.Cells.add_cell",
+    "cells.Cells.assign_cells", "cells.Cells.remove_cell", "debump.Debump.__init__", "debump.Debump.debump_biomolecule",
+    "debump.Debump.get_bump_score", "debump.Debump.set_dihedral_angle", "debump.Debump.find_residue_conflicts",
+    "debump.Debump.score_dihedral_angle", "hydrogens.HydrogenRoutines.cleanup", "hydrogens.HydrogenRoutines.initialize_full_optimization",
+    "hydrogens.HydrogenRoutines.initialize_wat_optimization", "main.non_trivial", "residue.Residue.rotate_tetrahedral", "structures.Atom.__init__",
+}
+
+
+def regenerate_sites(ctx):
+    """gen/c14_sites.py: coq/Generated/C14Sites.v from the CURRENT source tree."""
+    import subprocess
+    import sys
+
+    p = subprocess.run([sys.executable, str(core.VERIF / "gen" / "c14_sites.py")], capture_output=True, text=True, env={**os.environ, "VERIF_REPO": str(core.REPO)})
+    if p.returncode != 0:
+        ctx.broke("generator-broken", "gen/c14_sites.py (call-site table from the source)", (p.stdout + p.stderr)[-1500:])
+        return None
+    import json
+
+    return json.loads((core.VERIF / "coq" / "Generated" / "c14_sites.json").read_text())
+
+
+def modelled_table():
+    import re
+
+    txt = (core.VERIF / "coq" / "Model" / "CellsUse.v").read_text()
+    body = txt[txt.index("Definition modelled_sites") :]
+    body = body[: body.index("Fixpoint table_eqb")]
+    return dict(re.findall(r'\("([^"]+)", "([^"]*)"\)', body))
+
+
+def table_diff(sites):
+    want = modelled_table()
+    out = []
+    for n in sorted(set(want) | set(sites)):
+        a, b = want.get(n), (sites.get(n) or {}).get("skeleton")
+        if a != b:
+            out.append(f"{n}: model has {a!r}, source has {b!r}")
+    return out
+
+
+def shape_check(ctx, mon, label):
+    """Every per-call-site segment of the observed op trace (inside a live window, i.e. up to the last
+    query before the next assign_cells) must be an instance of the modelled protocol of that site."""
+    import re
+
+    evs = mon.events
+    # windows
+    starts = [i for i, e in enumerate(evs) if e[0] == "S"] + [len(evs)]
+    bad = []
+    nseg = 0
+    for w in range(len(starts) - 1):
+        win = evs[starts[w] + 1 : starts[w + 1]]
+        lastq = max((i for i, e in enumerate(win) if e[0] == "Q"), default=-1)
+        win = win[: lastq + 1]
+        i = 0
+        while i < len(win):
+            raw = win[i][2]
+            site = raw.replace("hydrogens.__init__.", "hydrogens.")
+            j = i
+            while j < len(win) and win[j][2] == raw:
+                j += 1
+            letters = "".join(e[0] for e in win[i:j])
+            nseg += 1
+            ctx.count(f"site-segment:{site}")
+            rx = SHAPES.get(site)
+            if rx is None:
+                bad.append((site, "unmodelled call site", letters[:60]))
+            elif not re.fullmatch(rx, letters):
+                bad.append((site, "not an instance of the modelled protocol " + rx, letters[:80]))
+            i = j
+    ctx.count("site-segments-checked", nseg)
+    seen = set()
+    for site, why, letters in bad:
+        if (site, why) in seen:
+            continue
+        seen.add((site, why))
+        ctx.cov["correspondence_disagreements"] += 1
+        if sum(b["kind"] == "correspondence-broken" for b in ctx.broken) < 6:
+            ctx.broke("correspondence-broken", f"op trace of {site} in {label} vs Model/CellsUse.v", f"{why}: observed {letters!r}")
+    ctx.cov["correspondence_cases"] += nseg
+    return not bad
 
 HEADER = "From Coq Require Import ZArith List String.\nFrom PV Require Import Model.Cells.\nImport ListNotations.\nOpen Scope Z_scope.\n"
 
@@ -100,6 +256,32 @@ def gen_seq(rng, disciplined):
                 ops.append(("move", a, pt()))
         else:
             ops.append(("query", a))
+    # query -> an atom enters a bordering cell that was never occupied -> query again from the same cell
+    # (catches memoised neighbourhoods / stale per-cell caches inside Cells)
+    if rng.random() < 0.5 and all(abs(c) < 1e9 for c in centre):
+        a, b = rng.sample(range(n), 2)
+        if not reg[a]:
+            ops.append(("add", a))
+            reg[a] = True
+        ops.append(("query", a))
+        if reg[b]:
+            ops.append(("remove", b))
+            reg[b] = False
+        k = rng.randrange(3)
+        far = [c + 40.0 * size * rng.choice([-1, 1]) for c in centre]  # a region nothing else visits
+        pa = tuple(far[i] + rng.uniform(0.1, 0.4) * size for i in range(3))
+        pb = tuple(pa[i] + (0.8 * size if i == k else 0.0) * rng.choice([-1, 1]) for i in range(3))
+        ops.append(("remove", a))
+        reg[a] = False
+        ops.append(("move", a, pa))
+        ops.append(("add", a))
+        reg[a] = True
+        ops.append(("query", a))
+        ops.append(("move", b, pb))
+        ops.append(("add", b))
+        reg[b] = True
+        ops.append(("query", a))
+        ops.append(("query", b))
     for a in range(n):
         ops.append(("query", a))
     return {"size": size, "p0": p0, "ops": ops, "disciplined": disciplined}
@@ -199,12 +381,17 @@ THOROUGH_INPUTS = QUICK_INPUTS + [
 ]
 
 
-def run_real(ctx, pdb, extra, keep_trace=False):
+def run_real(ctx, pdb, extra, keep_trace=False, extra_lines=None):
     from pdb2pqr import main as pmain
 
     d = ctx.scratch_dir()
     out = str(d / "o.pqr")
-    args = pmain.build_main_parser().parse_args([*extra, str(core.REPO / "tests" / "data" / pdb), out])
+    src = core.REPO / "tests" / "data" / pdb
+    if extra_lines:
+        body = [ln.rstrip("\n") for ln in src.read_text().splitlines() if ln.startswith(("ATOM", "HETATM"))]
+        src = d / "in.pdb"
+        src.write_text("\n".join(body + list(extra_lines) + ["END"]) + "\n")
+    args = pmain.build_main_parser().parse_args([*extra, str(src), out])
     mon = cellmon.CellMonitor()
     if not keep_trace:
         mon.trace_limit = 0
@@ -214,9 +401,25 @@ def run_real(ctx, pdb, extra, keep_trace=False):
             pmain.main_driver(args)
         except Exception as e:  # the run failing is not C14's business
             err = f"{type(e).__name__}: {e}"
-    for f in d.glob("o.*"):
+    for f in list(d.glob("o.*")) + list(d.glob("in.pdb")):
         f.unlink()
     return mon, err
+
+
+def report_findings(ctx, mon, pdb, extra_args, extra_lines=None):
+    seen = set()
+    allf = mon.misses + mon.ghosts + mon.latent
+    for f in allf:
+        sig = {"site": f["site"], "cause": f["cause"], "kind": f["kind"]}
+        key = core.sha(sig)
+        if key in seen:
+            continue
+        seen.add(key)
+        case = {"pdb": pdb, "args": extra_args, "finding": f, "count": sum(1 for g in allf if (g["site"], g["cause"], g["kind"]) == (f["site"], f["cause"], f["kind"]))}
+        if extra_lines:
+            case["extra_lines"] = list(extra_lines)
+        ctx.fail(sig, f"real history {pdb} {' '.join(extra_args)}: {f['kind']} of {f['atom']} ({f['cause']} at {f['site']}; query from {f['query']})", case)
+    return len(seen)
 
 
 def trace_to_model(mon, limit_ops=2500):
@@ -286,7 +489,19 @@ def run(ctx):
         "with brute force. Non-trivial = a sequence whose queries return >= 1 atom, or a real query with >= 1 atom in range; distinct by "
         "content hash (sequences) / (structure, options, query index)"
     )
+    sites = regenerate_sites(ctx)
     ok = core.proof_stage(ctx, "C14", THEOREMS, [])
+    if sites is not None:
+        d = table_diff(sites)
+        if d:
+            ok = False
+            ctx.broke("proof-broken", "call-site table (gen/c14_sites.py) differs from Model/CellsUse.v modelled_sites", "\n".join(d[:12]))
+        missing = [n for n in sites if n not in SHAPES and n not in TABLE_PRIMS and not any(t in sites[n]["skeleton"] for t in ()) and any(k in sites[n]["skeleton"] for k in ("add(", "rem(", "qry(", "new(", "del(", "W(", "Wx(", "Wy(", "Wz(", "rot(", "dih"))]
+        if missing:
+            ok = False
+            ctx.broke("correspondence-broken", "call sites without a modelled protocol", ", ".join(missing))
+    elif sites is None:
+        ok = False
     # --- correspondence on random sequences
     n = 6000 if ctx.thorough else 600
     cases = [gen_seq(ctx.rng, k % 2 == 0) for k in range(n)]
@@ -316,8 +531,24 @@ def run(ctx):
         for kind, detail in bad:
             ctx.fail({"site": "cells.Cells", "cause": "bucket-or-scan", "kind": kind}, f"Cells query on a disciplined history: {kind} {detail}", c)
     ctx.sample({"op_sequence": cases[0], "impl_queries": impl[0][0]})
+    # --- corpus: constructed real runs (regression cases of findings)
+    import json
+
+    for cf in sorted((core.VERIF / "corpus" / "C14").glob("*.json")):
+        c = json.loads(cf.read_text())
+        mon, err = run_real(ctx, c["base"], c["args"], extra_lines=c["extra_lines"])
+        ctx.count("corpus-runs")
+        ctx.cov["evaluations"] += mon.queries
+        ctx.evaluated(("corpus", c["name"]), mon.nontrivial_queries > 0)
+        if err:
+            ctx.notes.append(f"corpus {c['name']}: run ended with {err}")
+        n = report_findings(ctx, mon, c["base"], c["args"], c["extra_lines"])
+        ctx.count(f"corpus:{c['name']}:findings", n)
+        if not shape_check(ctx, mon, f"corpus {c['name']}"):
+            corr_broken = True
     # --- real histories
-    inputs = THOROUGH_INPUTS if ctx.thorough else QUICK_INPUTS
+    # a broken proof / table / correspondence escalates the search to the full input set
+    inputs = THOROUGH_INPUTS if (ctx.thorough or not ok or corr_broken) else QUICK_INPUTS
     for k, (pdb, extra_args) in enumerate(inputs):
         keep = pdb in ("1A1P.pdb", "5vav_cyclic_peptide.pdb", "cterm_hid.pdb")
         mon, err = run_real(ctx, pdb, extra_args, keep_trace=keep)
@@ -328,14 +559,9 @@ def run(ctx):
         ctx.cov["distinct_nontrivial"] = len(ctx._distinct)
         if err:
             ctx.notes.append(f"{pdb} {extra_args}: run ended with {err}")
-        seen = set()
-        for f in mon.misses + mon.ghosts + mon.latent:
-            sig = {"site": f["site"], "cause": f["cause"], "kind": f["kind"]}
-            key = core.sha(sig)
-            if key in seen:
-                continue
-            seen.add(key)
-            ctx.fail(sig, f"real history {pdb} {' '.join(extra_args)}: {f['kind']} of {f['atom']} ({f['cause']} at {f['site']}; query from {f['query']})", {"pdb": pdb, "args": extra_args, "finding": f, "count": sum(1 for g in mon.misses + mon.ghosts + mon.latent if (g['site'], g['cause'], g['kind']) == (f['site'], f['cause'], f['kind']))})
+        report_findings(ctx, mon, pdb, extra_args)
+        if not shape_check(ctx, mon, f"{pdb} {' '.join(extra_args)}"):
+            corr_broken = True
         if k == 0:
             ctx.sample({"real_run": pdb, "args": extra_args, "queries": mon.queries, "ops": mon.ops, "misses": len(mon.misses), "ghosts": len(mon.ghosts)})
         if keep and mon.trace:
@@ -354,7 +580,8 @@ def run(ctx):
                     ctx.broke("correspondence-broken", f"real trace of {pdb}: model evaluation failed", str(e))
     ctx.trusted += [
         "modelled, not verified: cells.py (hand model Model/Cells.v, tied by exact ordered-result equality on random op sequences and replayed real traces)",
-        "discipline of pdb2pqr's own histories: observed by the monitor on a fixed set of structures/options, not proved",
+        "call-site protocols: hand model Model/CellsUse.v; tied to the source by the ast call-site table (gen/c14_sites.py, obligation C14_sites_table_matches_model) and by the shape check of observed per-site op traces; which atoms create_atom bonds a new atom to, which branch runs and that removed Atom objects are never re-inserted are oracles/assumptions",
+        "caching or any other hidden state inside Cells is outside Model/Cells.v (get_near_cells is a pure function of the cell map there): covered only by the op-sequence correspondence (incl. query -> add into a NEW bordering cell -> query patterns) and the brute-force monitor",
     ]
     ctx.assumptions += ["atoms compare by identity (structures.Atom defines no __eq__)", "coordinates are finite floats"]
 
@@ -365,7 +592,7 @@ def replay(ctx, data):
         out, bad = run_impl(case)
         print("replay: ", "FAILS " + str(bad) if bad else "passes")
         return 1 if bad else 0
-    mon, err = run_real(ctx, case["pdb"], case["args"])
+    mon, err = run_real(ctx, case["pdb"], case["args"], extra_lines=case.get("extra_lines"))
     f = case["finding"]
     hits = [g for g in mon.misses + mon.ghosts + mon.latent if (g["site"], g["cause"]) == (f["site"], f["cause"])]
     print(f"replay: {len(hits)} occurrences of {f['cause']} at {f['site']}")
